@@ -276,16 +276,29 @@ func execBuildSM(in KV) string {
 		}
 		return d
 	}
+	// Encrypted Client Hello: the client gets a config list, the server the matching key (C15's kit);
+	// "accept": the server accepts ECH, "hrr": it accepts and first answers with a HelloRetryRequest.
+	echMode := in["ech"]
+	var es *echSetup
+	if echMode != "" {
+		es = mkEchSetup(echMode, uint8(rseed), [][2]int{{1, 1}, {1, 3}}, 32, "public.verif.test", "secret.verif.test", "P", rseed)
+	}
 	mkCfg := func() *tls.Config {
 		c := &tls.Config{ServerName: string(in.Bytes("sni")), OmitEmptyPsk: true, Rand: NewRng(rseed), InsecureSkipVerify: true}
 		if golang {
 			c.ServerName = "example.golang"
 		}
+		if es != nil {
+			c = &tls.Config{ServerName: "secret.verif.test", EncryptedClientHelloConfigList: es.cliList, OmitEmptyPsk: true}
+		}
 		return c
 	}
 	// dry run on a throw-away connection: which group can a HelloRetryRequest select after the edits?
 	scfg := &tls.Config{}
-	if srv != "plain" && !golang {
+	if es != nil {
+		scfg = es.serverCfg
+	}
+	if srv != "plain" && !golang && es == nil {
 		func() {
 			defer func() { recover() }()
 			d := tls.UClient(nil, mkCfg(), id)
@@ -312,7 +325,7 @@ func execBuildSM(in KV) string {
 			if err := u.BuildHandshakeState(); err != nil {
 				return err
 			}
-			if !golang {
+			if !golang && es == nil {
 				state0 = helloState(u)
 			}
 			raw0 = hx(u.HandshakeState.Hello.Raw)
@@ -385,6 +398,9 @@ func execBuildSM(in KV) string {
 	if golang {
 		return "golang=1 " + out
 	}
+	if es != nil {
+		return fmt.Sprintf("echmode=%s echacc=%s %s", echMode, b2i(res.ClientState.ECHAccepted), out)
+	}
 	return state0 + " " + out
 }
 
@@ -393,6 +409,14 @@ func genBuildSM(r *Rng, i int, tier string) string {
 	rseed := r.U64() >> 1
 	sni := Pick(r, []string{"example.golang", "verif.test", "a.verif.test", "localhost"})
 	switch {
+	case i%12 == 7:
+		// ECH offered and accepted (with and without a HelloRetryRequest): the hello on the wire is the outer one
+		id := Pick(r, []string{"Chrome-120", "Chrome-120_PQ", "Chrome-131", "Chrome-133", "Firefox-120"})
+		ops := "-"
+		if r.Intn(3) == 0 {
+			ops = "B"
+		}
+		return fmt.Sprintf("id=%s sni=%s rseed=%d srv=plain ech=%s ops=%s", id, hx([]byte("secret.verif.test")), rseed, Pick(r, []string{"accept", "accept", "hrr"}), ops)
 	case i%25 == 24:
 		return fmt.Sprintf("id=Golang-0 sni=%s rseed=%d srv=%s ops=%s", hx([]byte(sni)), rseed, srv, c01GenOps(r, true))
 	case i%6 == 5:
